@@ -975,6 +975,16 @@ def _fold_tagged_temps(fn):
                 for hd in st.handlers:
                     hd.body = scan(hd.body)
             nxt = stmts[i + 1] if i + 1 < len(stmts) else None
+            # if A: t__tag = B  else: t__tag = C   ->   t__tag = B if A else C   (same evaluation order, same value)
+            if isinstance(st, ast.If) and len(st.body) == 1 and len(st.orelse) == 1 and all(
+                    isinstance(b, ast.Assign) and len(b.targets) == 1 and isinstance(b.targets[0], ast.Name) and "__" in b.targets[0].id for b in (st.body[0], st.orelse[0])) \
+                    and st.body[0].targets[0].id == st.orelse[0].targets[0].id and binds.get(st.body[0].targets[0].id) == 2 \
+                    and isinstance(nxt, ast.If) and uses.get(st.body[0].targets[0].id) == 1 \
+                    and any(isinstance(n_, ast.Name) and n_.id == st.body[0].targets[0].id for n_ in ast.walk(nxt.test)):
+                t_ = st.body[0].targets[0].id
+                st = ast.copy_location(ast.Assign(targets=[ast.Name(id=t_, ctx=ast.Store())], value=ast.IfExp(test=st.test, body=st.body[0].value, orelse=st.orelse[0].value), lineno=st.lineno), st)
+                ast.fix_missing_locations(st)
+                binds[t_] = 1
             if nxt is not None and isinstance(st, ast.Assign) and len(st.targets) == 1 and isinstance(st.targets[0], ast.Name) and "__" in st.targets[0].id:
                 t = st.targets[0].id
                 where = nxt.test if isinstance(nxt, ast.If) else nxt if isinstance(nxt, (ast.Assign, ast.AnnAssign, ast.AugAssign, ast.Expr, ast.Return)) else None
